@@ -1,18 +1,11 @@
-// C16 demonstration: PAUSE holds clients, RESUME releases every one of them -- also when a
-// RELOAD (of a config whose change does not touch the paused pool) happens in between.
-//
-// Sequence (everything issued through the admin console code, `handle_admin`):
-//   1. clients take their pool handle (what Client::handle holds in `pool`)
-//   2. PAUSE
-//   3. the clients send a query: each blocks in `pool.wait_paused()`
-//   4. the config file gets a new [general] ban_time; RELOAD  (pool "db" itself is unchanged)
-//   5. the pool is still reported as paused
-//   6. RESUME
-//   7. every held client must proceed
-//
-// No PostgreSQL server is needed: validate_config = false, nobody checks out a connection.
-//
-// Run: CARGO_TARGET_DIR=/tmp/seed-C16/target cargo test --offline --test c16_pause_reload_resume
+//! D62 (C16): PAUSE, RELOAD of a *changed* pool, RESUME - the clients held at the gate hang for ever.
+//!
+//! from_config builds a pool whose definition changed from scratch, with a fresh `paused` flag and a fresh
+//! Notify. The clients that were held when the reload happened sleep on the old pool's Notify; RESUME walks the
+//! pools in POOLS and notifies the new one. The pause itself is silently lost for new transactions as well.
+//! (Adapted from the demonstration the round-6 seeding agent wrote for its own change.)
+//!
+//!   cargo test --offline --test d62_c16_rebuilt_pool_keeps_its_gate
 
 use std::collections::HashMap;
 use std::sync::Arc;
@@ -25,7 +18,7 @@ use pgcat::admin::handle_admin;
 use pgcat::config;
 use pgcat::pool::{get_all_pools, get_pool, ClientServerMap, ConnectionPool};
 
-fn config_toml(ban_time: i64) -> String {
+fn config_toml(pool_size: u32) -> String {
     format!(
         r#"
 [general]
@@ -34,12 +27,11 @@ port = 16433
 admin_username = "admin"
 admin_password = "admin"
 validate_config = false
-ban_time = {ban_time}
 
 [pools.db.users.0]
 username = "user"
 password = "pw"
-pool_size = 2
+pool_size = {pool_size}
 min_pool_size = 0
 pool_mode = "transaction"
 
@@ -75,7 +67,7 @@ async fn admin(sql: &str, map: &ClientServerMap) {
 async fn resume_after_reload_releases_every_held_client() {
     let path = std::env::temp_dir().join(format!("c16_pgcat_{}.toml", std::process::id()));
     let path_str = path.to_str().unwrap().to_string();
-    std::fs::write(&path, config_toml(60)).unwrap();
+    std::fs::write(&path, config_toml(2)).unwrap();
 
     let map: ClientServerMap = Arc::new(Mutex::new(HashMap::new()));
 
@@ -104,10 +96,10 @@ async fn resume_after_reload_releases_every_held_client() {
         assert!(!w.is_finished(), "client {i} passed the gate of a paused pool");
     }
 
-    // 4. an unrelated setting changes; RELOAD
-    std::fs::write(&path, config_toml(90)).unwrap();
+    // 4. the pool's own definition changes (pool_size): the pool is rebuilt by the RELOAD
+    std::fs::write(&path, config_toml(3)).unwrap();
     admin("RELOAD", &map).await;
-    assert_eq!(config::get_config().general.ban_time, 90, "reload happened");
+    assert_eq!(get_pool("db", "user").unwrap().settings.user.pool_size, 3, "the pool was rebuilt");
 
     // 5. nobody was let through by the reload, and the pool still says it is paused
     tokio::time::sleep(Duration::from_millis(100)).await;
